@@ -241,11 +241,17 @@ impl Real {
                 // no flush: take the bytes as into_inner leaves them
                 let mut file = comp.into_inner();
                 file.seek(SeekFrom::Start(0)).unwrap();
+                // either order of the two builder calls must give the same options
+                static ORDER: std::sync::atomic::AtomicUsize = std::sync::atomic::AtomicUsize::new(0);
+                let strict_first = ORDER.fetch_add(1, std::sync::atomic::Ordering::SeqCst) % 2 == 1;
                 let mut o = OpenOptions::new();
+                if strict_first && *mode == "strict" {
+                    o = o.strict();
+                }
                 if let Some(m) = self.maxbuf {
                     o = o.max_buffer_size(m);
                 }
-                if *mode == "strict" {
+                if !strict_first && *mode == "strict" {
                     o = o.strict();
                 }
                 // `open_with` consumes the backend; on refusal reopen the same bytes permissively so
